@@ -50,6 +50,8 @@ package provisioning
 //verif:requires locksInv(p)
 //verif:ensures[inv] locksInv(p)
 //verif:ensures[returns-unlock] unlock != nil
+//verif:ensures[release-is-exactly-that-mutex-unlock] isboundmethod(unlock, "(*Mutex).Unlock") && bound(unlock, 0) == p.locks[id]
+//verif:never builtin.delete
 //verif:ensures[one-mutex-per-id] has(p.locks, id) && p.locks[id] != nil && (old(has(p.locks, id)) ==> p.locks[id] == old(p.locks[id]))
 //verif:ensures[others-untouched] forall k :: k != id ==> has(p.locks, k) == old(has(p.locks, k)) && p.locks[k] == old(p.locks[k])
 //verif:ensures[locked] count("(*Mutex).Lock") == 2 && count("(*Mutex).Unlock") == 1
